@@ -14,7 +14,13 @@ evaluates OfferedCompatible (real and declarative is_maybe_subtype) and Provider
 P2 histories: every history of MC_TypeSystem (queries interleaved with add_subclass_edge /
 add_generator / update_return_type) and random long ones are replayed on a real
 ModuleTestCluster under both providers; TypeSystemHistTrace.tla follows the log with the cache
-machine and evaluates `cached answer at the end = recomputation on a fresh cluster`.
+machine and evaluates `cached answer at the end = recomputation on a fresh cluster` and, on every
+offered set along the history, `every offered generator generates NOW a type that may be a subtype
+of the requested type` (OfferedCompatibleHist; generated_type() and the generator table are
+recorded after every call, Drift_Table compares the table with the model's).  Return-type family
+(MC_TypeSystemRet): add_generator of the unannotated function, then update_return_type calls that
+narrow (Any -> {c}) or widen (T -> T | c) a return type interleaved with offered-set queries for
+types compatible with the old type only / the new type only / both, under both providers.
 """
 
 from __future__ import annotations
@@ -40,13 +46,17 @@ def witness(ev: dict, clause: str) -> tuple[str, str]:
     n = range(len(ut))
     if law.startswith("OfferedCompatible"):   # (the Spec variant is located with the real matrix too)
         key = "offR" if cls == "Random" else "offG"
-        for i in n:
-            for g in ev[key][i]:
-                r = gens[g - 1]["ret"] - 1
-                if not maybe[r][i]:
-                    return (f"{base.shape(ut[i])}<-{base.shape(ut[r])}",
-                            f"{key[-1]} provider offers {gens[g - 1]['name']} -> {base.tstr(ut[r])} for requested "
-                            f"{base.tstr(ut[i])} although not is_maybe_subtype")
+        model = base._Model(ev)               # reporting only: which deviation explains the pair
+        pairs = [(i, g, gens[g - 1]["ret"] - 1) for i in n for g in ev[key][i]
+                 if not maybe[gens[g - 1]["ret"] - 1][i]]
+        pick = next((p for p in pairs if cls == "Random" or
+                     model.known_generic_args_only(ut[p[0]], ut[p[2]]) == (cls == "KnownGenericArgsOnly")),
+                    pairs[0] if pairs else None)
+        if pick:
+            i, g, r = pick
+            return (f"{base.shape(ut[i])}<-{base.shape(ut[r])}",
+                    f"{key[-1]} provider offers {gens[g - 1]['name']} -> {base.tstr(ut[r])} for requested "
+                    f"{base.tstr(ut[i])} although not is_maybe_subtype")
     if law == "ProvidersAgree":
         for i in n:
             a, b = set(ev["offG"][i]), set(ev["offR"][i])
@@ -80,8 +90,10 @@ def signature(ev: dict, clause: str) -> tuple[str, str]:
     return f"{PROP}/{law}/{sh}", detail
 
 
-def hist_signature(tr: dict, clause: str) -> tuple[str, str]:
+def hist_signature(tr: dict, clause: str, step: int = -1) -> tuple[str, str]:
     law, _, cls = clause.partition("_")
+    if law == "OfferedCompatibleHist":
+        return offered_hist_signature(tr, step)
     fin = tr["ev"][-1]
     stale = [a for a in fin["asked"] if a["cached"] != a["fresh"]]
     log = [e["k"] + (":" + e["key"]["q"] if e["k"] == "query" else "") for e in tr["ev"][1:-1]]
@@ -92,6 +104,33 @@ def hist_signature(tr: dict, clause: str) -> tuple[str, str]:
         return f"{PROP}/{law}/{cls[len('Known'):]}", detail
     kinds = sorted({a["key"]["q"] for a in stale}) or ["unlocated"]
     return f"{PROP}/{law}/{kinds[0]}", detail
+
+
+def offered_hist_signature(tr: dict, step: int) -> tuple[str, str]:
+    """Signature = the kind of update that precedes the offending offered set; the detail lists the
+    offered generators with their registrations (descriptive, TLC judged)."""
+    evs = tr["ev"]
+    e = evs[step - 1] if 1 <= step <= len(evs) else evs[-1]
+    before = [x["k"] for x in evs[:evs.index(e)] if x["k"] in ("add_edge", "add_gen", "update_ret")]
+    log = [x["k"] + (":" + x["key"]["q"] + "(" + x["key"]["l"]["c"] + ")" if x["k"] == "query" else
+                     ":" + x.get("g", x.get("x", "")) + ("," + x.get("c", x.get("y", "")) if x["k"] != "add_gen" else ""))
+           for x in evs[1:-1]]
+    if e["k"] == "query":
+        sets = [(e["key"]["l"], e["ans"]["s"])]
+    else:
+        sets = [(a["key"]["l"], a["cached"]["s"]) for a in e["asked"] if a["key"]["q"] == "offered"]
+    regs = {}
+    for r in e["tab"]:
+        regs.setdefault(r["g"], []).append(r)
+    parts = []
+    for req, offered in sets:
+        odd = [f"{g} registered under {[base.tstr(r['key']) for r in regs.get(g, [])]} generates "
+               f"{base.tstr(regs[g][0]['ret']) if g in regs else '?'}"
+               for g in offered if g not in regs or len(regs[g]) != 1 or regs[g][0]["key"] != regs[g][0]["ret"]]
+        parts.append(f"requested {base.tstr(req)}: offered {offered}" + (f" ({'; '.join(odd)})" if odd else ""))
+    detail = (f"provider {evs[0]['prov']} history {log}, step {step} ({e['k']}): " + " | ".join(parts[:4])
+              + ": an offered generator generates a type that cannot be a subtype of the requested type")
+    return f"{PROP}/OfferedCompatibleHist/after-{before[-1] if before else 'analysis'}", detail
 
 
 # --------------------------------------------------------------------------------- histories
@@ -107,6 +146,18 @@ def history_cases(ctx: Ctx) -> list[dict]:
     for cfg, note in plan:
         got = ctx.behaviours("MC_TypeSystem", cfg, timeout=6000)
         ctx.notes[note] = len(got)
+        cases += got
+    # return-type family: add_generator(xa -> Any), then update_return_type (narrowing Any -> {c},
+    # widening T -> T | c) interleaved with offered-set queries; replayed under BOTH providers
+    ret_plan = [("MC_TypeSystemRet.cfg", "histories_return_type_family_2_classes_depth4")]
+    if not ctx.quick:
+        ret_plan += [("MC_TypeSystemRet_n3.cfg", "histories_return_type_family_3_classes_depth4"),
+                     ("MC_TypeSystemRet_edges.cfg", "histories_return_type_family_with_edges_2_classes_depth5")]
+    for cfg, note in ret_plan:
+        got = ctx.behaviours("MC_TypeSystemRet", cfg, timeout=6000)
+        ctx.notes[note] = len(got)
+        for c in got:
+            c["family"] = "ret"
         cases += got
     sims = ctx.simulate("MC_TypeSystem", "MC_TypeSystem_hist_sim.cfg", num=n_sim, depth=depth, timeout=6000)
     k = 0
@@ -127,7 +178,7 @@ def run_histories(ctx: Ctx, cases: list[dict] | None = None) -> None:
     d.mkdir(parents=True, exist_ok=True)
     # thorough: every history under both providers; quick: providers alternate over the histories
     jobs = [(c, str(d), f"tsh_{i}_{p.lower()}", p) for i, c in enumerate(cases) for p in ("G", "R")
-            if not ctx.quick or (i % 2 == 0) == (p == "G")]
+            if not ctx.quick or c.get("family") == "ret" or (i % 2 == 0) == (p == "G")]
     ctx.rng("order").shuffle(jobs)            # long and short histories spread evenly over the TLC chunks
     traces = parallel_map(ad.replay_history, jobs, procs=8, chunksize=16)
     ctx.notes["history_traces"] = len(traces)
@@ -136,7 +187,8 @@ def run_histories(ctx: Ctx, cases: list[dict] | None = None) -> None:
             if e["k"] == "query":
                 ctx.nontriv(hash(("q", t["ev"][0]["prov"], json.dumps(e, sort_keys=True),
                                   tuple(x["k"] for x in t["ev"][1:-1]))))
-        ctx.evaluations += len(t["ev"][-1]["asked"])
+        ctx.evaluations += len(t["ev"][-1]["asked"]) + sum(
+            1 for e in t["ev"] if e["k"] == "query" and e["key"]["q"] == "offered")
     chunk = max(200, -(-len(traces) // 3))
     verdicts = ctx.validate("TypeSystemHistTrace", traces, chunk=chunk, workers=4, timeout=6000)
     for idx, bad in sorted(verdicts.items()):
@@ -147,7 +199,7 @@ def run_histories(ctx: Ctx, cases: list[dict] | None = None) -> None:
                                  f"{[(a['op'], a['x'], a['y'], a['key']['q']) for a in jobs[idx][0]['hist']]} "
                                  f"provider {jobs[idx][3]}")
                 continue
-            s, detail = hist_signature(tr, clause)
+            s, detail = hist_signature(tr, clause, step)
             ctx.bad(clause, s, detail, trace=tr, behaviour={"kind": "history", "case": jobs[idx][0],
                                                             "prov": jobs[idx][3]})
     for t in traces[:1] + traces[-1:]:
@@ -162,8 +214,11 @@ def run(ctx: Ctx) -> None:
                 "provider; evaluation = one (requested type, provider) offered set; non-trivial = distinct "
                 "(hierarchy, requested type) with a non-empty offered set.  history case = one history of "
                 "add_subclass_edge / add_generator / update_return_type / queries (all histories of depth "
-                "2 or 3 from MC_TypeSystem + random histories of depth <= 8) x provider; evaluation = one "
-                "asked query compared cached vs recomputed; non-trivial = distinct (history prefix, query)")
+                "2 or 3 from MC_TypeSystem + random histories of depth <= 8 + the return-type family of "
+                "MC_TypeSystemRet: add_generator of the unannotated function, update_return_type narrowing / "
+                "widening a return type, offered-set queries) x provider; evaluation = one asked query "
+                "compared cached vs recomputed, one offered set judged against generated_type() of its "
+                "generators; non-trivial = distinct (history prefix, query)")
     ctx.assumptions = ["offered set = provider._get_generators_for(T) (the mechanism named by the property); "
                        "select_generator_for is checked to pick from it",
                        "update_return_type is applied to function generators only (constructors keep their "
@@ -223,8 +278,9 @@ def replay(ctx: Ctx, rec: dict) -> int:
     if b.get("kind") == "history":
         tr = ad.replay_history((b["case"], str(d), "tsh_replay", b["prov"]))
         verdicts = ctx.validate("TypeSystemHistTrace", [tr])
-        bad = [c for c, _ in verdicts.get(0, []) if not c.startswith("Drift_")]
-        sigs = [hist_signature(tr, c)[0] for c in bad]
+        steps = {c: st for c, st in verdicts.get(0, [])}
+        bad = [c for c in steps if not c.startswith("Drift_")]
+        sigs = [hist_signature(tr, c, steps[c])[0] for c in bad]
         print(json.dumps(tr)[:3000])
     else:
         tr = ad.analyse_static((b["case"], str(d), b["mod"], b.get("seed", 0), b["n_random"]))
